@@ -59,7 +59,7 @@ def _run_matrix(job):
         for f, d, ft in job["matrix"]:
             obj, kw, closer = wbgen.deliver(wb, f, d, ft, tmp)
             try:
-                res = conv.convert_case({"input": {"kind": "path" if isinstance(obj, str) and d == "path" else ("dict" if f in ("dict", "dict_rows") else "md"), "data": obj}, "kwargs": kw, "events": False})
+                res = conv.convert_case({"input": {"kind": "path" if isinstance(obj, str) and d in ("path", "path_stem", "path_stem_odd") else ("dict" if f in ("dict", "dict_rows") else "md"), "data": obj}, "kwargs": kw, "events": False})
             finally:
                 if closer:
                     closer()
@@ -177,7 +177,16 @@ def run(rep):
         {"name": "survey", "header": ["type", "name", "label", "hint"], "rows": [["text", "q1", "line\u2028sep", "para\u2029sep"], ["text", "q2", "nel\u0085here", None],
                                                                                  ["select_one L", "q3", "Q3", "fs\u001c?".replace("\u001c?", "x")]]},
         {"name": "choices", "header": ["list_name", "name", "label"], "rows": [["L", "a", "c\u2028l"], ["L", "b", "B"]]}]}))
+    # a misspelled optional sheet ("setting") beside the supported ones: the same notice from every container
+    wbs.append(({"misspelled_sheet": "setting"}, {"sheets": [
+        {"name": "survey", "header": ["type", "name", "label"], "rows": [["text", "q1", "Q1"], ["select_one L", "q2", "Q2"]]},
+        {"name": "choices", "header": ["list_name", "name", "label"], "rows": [["L", "a", "A"], ["L", "b", "B"]]},
+        {"name": "setting", "header": ["form_title"], "rows": [["T"]]}, {"name": "notes", "header": ["x"], "rows": [["y"]]}]}))
+    stem_matrix = [m for m in matrix if m[1] in ("path_stem", "path_stem_odd")]
+    matrix = [m for m in matrix if m[1] not in ("path_stem", "path_stem_odd")]
     mjobs = [{"tag": t, "wb": wb, "matrix": matrix} for t, wb in wbs]
+    # the file stem supplies the default form id: the same stem under a regular and under an odd suffix (compared with each other)
+    mjobs += [{"tag": {**t, "stem_channels": True}, "wb": wb, "matrix": stem_matrix} for t, wb in wbs[:6] + wbs[-2:]]
     mouts = conv.map_cases(_run_matrix, mjobs, chunksize=1)
     for o in mouts:
         if o.get("status") == "harness_error":
